@@ -266,6 +266,10 @@ def h_zero_reset(cx, kind):
         cx.assume(lt(x, cap))
     ra, rb = b.charge(pilot, V, T), b2.charge(pilot, V, T)
     cx.check("reset:behaves_like_fresh", and_(eq(ra, rb), eq(_charge_of(b), _charge_of(b2))))
+    # an explicit reset(x) earlier in the history does not change what a later default reset() restores
+    b.reset()
+    d = b._to_dict()[0]
+    cx.check("reset_after_reset(x):restores_constructed_charge", and_(eq(d["_current_charge"], init), eq(d["_init_charge"], init), eq(d["_current_charging_power"], 0)))
     cx.tag("done")
     cx.observe("r", [r0, ra])
 
@@ -343,7 +347,7 @@ def jobs(tier):
               bounds=dict(step="one charge() from an arbitrary valid state; capacity, charge, max power, transition soc, pilot, voltage, period all symbolic"), cost=5)]
     for kind in ("ideal", "continuous", "stepwise"):
         js.append(Job("zero_reset[%s]" % kind, h_zero_reset, dict(kind=kind), functions=FUNCS, expect_tags=("done",), approx=(kind == "continuous"), timeout=1500,
-                      bounds=dict(sequence="charge(0); charge(p); charge(0); reset(); charge(p); reset(x); charge(p) vs fresh battery"), cost=3))
+                      bounds=dict(sequence="charge(0); charge(p); charge(0); reset(); charge(p); reset(x); charge(p) vs fresh battery; reset()"), cost=3))
     for what in ("pilot", "period"):
         js.append(Job("ideal_mono[%s]" % what, h_mono_ideal, dict(what=what), functions=FUNCS, expect_tags=("mono",)))
     scales = [(240, 100)] if q else [(240, 100), (208, 40), (120, 8)]
